@@ -298,8 +298,6 @@ def search_invariance(ctx, rng, budget):
         try:
             A, dA = run_cos(a['origin'], a['rmax'], order, odd, sin, meth, a['W'], a['IM'])
             B, dB = run_cos(b['origin'], b['rmax'], order, odd, sin, meth, b['W'], b['IM'])
-        except OverflowError:
-            continue        # the C14 finding (integer pc); reported by C14
         except Exception as e:     # noqa
             params = dict(kind=kind, order=order, odd=odd, use_sin=sin, method=meth, radii=[], sign=sign.tolist(), tol=[],
                           a=dict(origin=oj(a['origin']), rmax=a['rmax'], W=aj(a['W']), IM=aj(a['IM'])),
